@@ -150,10 +150,14 @@ def signed_int_to_bytes(bytes):
 
 def define_blockshape_2d(bits_per_voxel, blockshape):
     assert blockshape[0] == 1
-    return define_blockshape_3d(bits_per_voxel, blockshape)
+    return define_blockshape(bits_per_voxel, blockshape, True)
 
 
 def define_blockshape_3d(bits_per_voxel, blockshape):
+    return define_blockshape(bits_per_voxel, blockshape, False)
+
+
+def define_blockshape(bits_per_voxel, blockshape, is_2d):
     if sum([1 for n in list(blockshape) + [bits_per_voxel] if n == -1]) > 1:
         raise ValueError("Blockshape is underdefined")
 
@@ -174,8 +178,16 @@ def define_blockshape_3d(bits_per_voxel, blockshape):
         elif blockshape[2] == -1:
             blockshape = (blockshape[0], blockshape[1], int(DISK_BLOCK_BYTES * 8 //
                                                             (blockshape[0] * blockshape[1] * bits_per_voxel)))
-        else:
-            assert(bits_per_voxel * blockshape[0] * blockshape[1] * blockshape[2] == DISK_BLOCK_BYTES * 8)
+
+    # Whichever parameter was left free, the resolved configuration must be one that can be written and read back
+    if bits_per_voxel not in (0.25, 0.5, 1, 2, 4, 8, 16, 32):
+        raise ValueError(f"bits_per_voxel is {bits_per_voxel}: must be one of 1/4, 1/2, 1, 2, 4, 8, 16, 32")
+    if is_2d and bits_per_voxel < 1:
+        raise ValueError("2D compression needs at least 1 bit per voxel: ZFP cannot code a 4x4 unit in 8 bits or fewer")
+    for n in (blockshape[1:] if is_2d else blockshape):
+        if not (n >= 4 and n & (n - 1) == 0):
+            raise ValueError(f"blockshape is {tuple(blockshape)}: each dimension must be a power of 2, at least 4")
+    assert(bits_per_voxel * blockshape[0] * blockshape[1] * blockshape[2] == DISK_BLOCK_BYTES * 8)
     return bits_per_voxel, blockshape
 
 
